@@ -186,7 +186,7 @@ class Rewriter:
             if asz:
                 if is_dest:
                     return self.access("s", raw, mem, asz) + ["  " + raw] + self.store_post()
-                return self.access("l", raw, mem, asz) + ["  " + raw]
+                return self.access("l", raw, mem, asz) + ["  " + raw] + self.store_post()    # (the post hook undoes store-to-load forwarding)
             return self.yld("S" if is_dest else "L", raw) + ["  " + raw]
         if size is None:
             self.stats["unmodelled_nonlocked_rmw"] += 1
